@@ -18,7 +18,12 @@
 (*                                                                         *)
 (* act.op         arguments              AWK rendering                      *)
 (* "print"        dest="stdout", form    print x / printf "%s", x /         *)
-(*                                       print x, x   (form "print2")       *)
+(*                                       print x, x   (form "print2") /     *)
+(*                                       a rule with a pattern and NO       *)
+(*                                       action, whose implied action is    *)
+(*                                       print $0 (form "implied": the      *)
+(*                                       record, then the output record     *)
+(*                                       separator)                         *)
 (* "print"        dest="file", name, mode("trunc"|"append"), form           *)
 (*                                       print x > name / print x >> name   *)
 (* "print"        dest="cmd", name, form print x | name                     *)
@@ -45,7 +50,19 @@
 (* about which the statement says nothing: within a run a file is used      *)
 (* under one spelling only, see Enabled.)                                   *)
 (*                                                                         *)
-(* Names.  f1 f2 f3: regular files of the work directory.  /dev/null: a     *)
+(* Names.  nd/g1: a file name whose directory nd does NOT exist: writing to  *)
+(* it (> and >>) and reading it (getline, operand) are attempts like any    *)
+(* other -- refused under the deny flag, else ONE call of the open-file      *)
+(* function, which fails; NOTHING is created (Prediction.created lists the  *)
+(* file-system entries a run creates: only files opened for writing through *)
+(* the open-file function come into being, never a directory); the error    *)
+(* outcome of the failed open is not judged.  Spellings: absolute (literal  *)
+(* or computed), "rel", and -- with a custom open-file function only --      *)
+(* "jailed": the program writes the name relative to the work directory and *)
+(* the open-file function resolves it there (as os.Root.OpenFile would), so *)
+(* that anything done to the name behind the function's back lands in the   *)
+(* process's working directory instead.                                     *)
+(* f1 f2 f3: regular files of the work directory.  /dev/null: a             *)
 (* file like any other for the flags and the open-file function; what is    *)
 (* written to it is discarded, reading it gives the end of input at once.   *)
 (* d1: an existing directory (operand only).  Operands "" (skipped by       *)
@@ -63,6 +80,13 @@
 (* SHAPE of a print action (act.shape, "plain" when absent) is the string   *)
 (* argument:  plain  k        nl     k LF                                   *)
 (*            mid    k LF K   midnl  k LF K LF     crlf   k CR LF K         *)
+(*            block  ONE string of N copies of k, written by one print or   *)
+(*                   printf.  N >= 1 is a parameter of the binding, which   *)
+(*                   instantiates it with sizes around the buffer sizes of  *)
+(*                   the output streams (4096, 64 KiB -1/+0/+1, 128 KiB+1); *)
+(*                   in the model it is ONE symbol, Block(k) = 1000 + k:    *)
+(*                   what the statement says (complete, in program order,   *)
+(*                   once) does not depend on how long a written string is. *)
 (* printf "%s" writes the argument, print writes the argument and then the  *)
 (* output record separator LF.  Form "print2" is print with two arguments:  *)
 (* letter, output field separator, letter, newline; the separator is that   *)
@@ -102,6 +126,7 @@ EXTENDS Strings, TLC
 Files    == {"f1", "f2", "f3"}         \* regular files of the work directory
 NullFiles == {"/dev/null"}             \* a file for the flags and the open-file function; discards / is empty
 AllFiles == Files \cup NullFiles
+LostFiles == {"nd/g1"}                 \* file names in a directory that does not exist (never opened successfully, no stream)
 Dirs     == {"d1"}                     \* an existing directory of the work directory (operand only)
 SkipOperands == {"", "v=1"}            \* operands that are not files: skipped by design / an assignment
 Cmds     == {"cat", "cat3"}            \* cat: `cat`;  cat3: `sh -c 'cat; exit 3'`  (read stdin, echo it)
@@ -121,7 +146,8 @@ Reads(c)  == c \notin NoReadCmds \cup BlankCmds
 PathClasses == {"rel", "dotdot", "devdd"}          \* spellings of a regular file's path other than the plain one
 Spelling(k) == IF k \in PathClasses THEN k ELSE "abs"
 NLModes  == {"raw", "crlf", "smart"}
-Shapes   == {"plain", "nl", "mid", "midnl", "crlf"}
+Shapes   == {"plain", "nl", "mid", "midnl", "crlf", "block"}
+Block(b) == 1000 + b                   \* the symbol for N copies of byte b written as ONE string
 WKinds   == {"plain", "bufio3", "bufio16", "bufio4096"}
 OModes   == {"default", "csv", "tsv"}
 OldContent == <<c_o, LF>>              \* content of a file that exists before the run
@@ -271,6 +297,7 @@ ShapeArg(sh, k) ==
     [] sh = "mid"   -> <<96 + k, LF, 64 + k>>
     [] sh = "midnl" -> <<96 + k, LF, 64 + k, LF>>
     [] sh = "crlf"  -> <<96 + k, CR, LF, 64 + k>>
+    [] sh = "block" -> <<Block(96 + k)>>
     [] OTHER        -> <<96 + k>>
 \* the strings a print statement writes, in order: printf the argument; print the argument and the record separator;
 \* print with two arguments also the field separator between them
@@ -289,6 +316,8 @@ PrintFile(st, act, data) ==
   ELSE IF n \in AllFiles /\ st.outs[n].open
        THEN [st EXCEPT !.outs[n].buf = @ \o data, !.wr[n].data = @ \o data]      \* one name = one stream
   ELSE IF st.flags.nw THEN Deny(st)
+  \* the directory of the name does not exist: one call of the open-file function, which fails; nothing is created
+  ELSE IF n \in LostFiles THEN OpenFails([st EXCEPT !.opens = Append(@, [name |-> n, mode |-> act.mode])])
   ELSE IF n = "/dev/stdout" THEN WriteStdout(st, data)
   ELSE IF n = "/dev/stderr" THEN [st EXCEPT !.serr = @ \o data]
   ELSE LET base == IF act.mode = "trunc" \/ ~st.fsys[n].ex THEN <<>> ELSE st.fsys[n].c
@@ -354,6 +383,9 @@ GetlineFile(st, act) ==
   IF n = "-"
   THEN IF st.stdin = <<>> THEN Note(st, "getline", 0, <<>>, ~st.taint)
        ELSE Note([st EXCEPT !.stdin = Tail(@)], "getline", 1, Head(st.stdin), ~st.taint)
+  ELSE IF n \in LostFiles
+  THEN IF st.flags.nr THEN Deny(st)
+       ELSE Note([st EXCEPT !.opens = Append(@, [name |-> n, mode |-> "read"])], "getline", 0 - 1, <<>>, FALSE)
   ELSE IF st.outs[n].open THEN Conflict(st)
   ELSE IF st.ins[n].open THEN ReadIn(st, n, st.ins[n].judged)
   ELSE IF st.flags.nr THEN Deny(st)
@@ -389,6 +421,7 @@ Operand(st, act) ==
   ELSE IF n = "-" THEN MainStdin(st)
   ELSE IF st.flags.nr THEN Deny(st)                               \* every other operand is an attempt to open a file
   ELSE IF n \in Dirs THEN End(opened, "error")                    \* opened through the function; nothing can be read from it
+  ELSE IF n \in LostFiles THEN OpenFails(opened)                  \* one call of the open-file function, which fails
   ELSE IF ~st.fsys[n].ex THEN OpenFails(opened)                   \* the attempt is a call of the open-file function all the same
   ELSE NoteRecs([opened EXCEPT !.everRead = @ \cup {n}], Lines(st.fsys[n].c), NoCR(st.fsys[n].c))
 
@@ -429,14 +462,21 @@ Apply(st, act) ==
 \*  - the standard input as main input after a child that does not read its input to the end was given it (the
 \*    number of records left is a race between that child's exit and the copying of the input to it);
 \*  - two spellings of one file in one run (two streams on one file);
-\*  - payloads other than "plain" in CSV / TSV output mode (quoting rules of their own), or with two arguments.
+\*  - payloads other than "plain" in CSV / TSV output mode (quoting rules of their own), or with two arguments;
+\*  - the "jailed" spelling without a custom open-file function (the name would denote another file);
+\*  - a name in a directory that does not exist when neither a custom open-file function is configured nor the deny
+\*    flag of that direction is set (what the default open function does about the missing directory is the
+\*    platform's business; the statement speaks about the deny flags and the configured function).
 Enabled(st, act) ==
   /\ st.result = "run"
   /\ (act.op = "print" /\ act.dest = "cmd" /\ act.name \in NoReadCmds) => ~st.outs[act.name].broken
   /\ (act.op = "print" /\ act.dest = "cmd" /\ act.name \in BlankCmds) => st.flags.ne
   /\ (act.op = "print" /\ act.dest = "file" /\ act.name \in StdNames) => ~st.flags.nw
   /\ (act.op = "print" /\ ShapeOf(act) # "plain") => (st.omode = "default" /\ act.form # "print2")
-  /\ act.op = "operand" => (IF act.name \in {"-"} \cup SkipOperands \cup Dirs THEN TRUE ELSE ~st.outs[act.name].open)
+  /\ act.op = "operand" => (IF act.name \in {"-"} \cup SkipOperands \cup Dirs \cup LostFiles THEN TRUE ELSE ~st.outs[act.name].open)
+  /\ ClsOf(act) = "jailed" => st.custom
+  /\ (HasName(act) /\ act.name \in LostFiles) => (IF st.custom THEN TRUE ELSE IF act.op = "print" THEN st.flags.nw ELSE st.flags.nr)
+  /\ (act.op = "print" /\ act.form = "implied") => (act.dest = "stdout" /\ ShapeOf(act) = "plain")
   /\ FileOf(act) # "" => st.spell[FileOf(act)] \in {"none", Spelling(ClsOf(act))}
   /\ (st.racy /\ act.op = "operand") => act.name \notin {"-"} \cup SkipOperands
   /\ st.skipped => act.op \in {"operand", "finish"}
@@ -460,6 +500,11 @@ Menu(fs, classes, forms) ==
   \cup {a \in {[op |-> "getline_file", name |-> n, cls |-> k] : n \in fs \cup {"-"}, k \in classes} : ClsFits(a.name, a.cls)}
   \cup {[op |-> "getline_cmd", name |-> c, cls |-> k] : c \in Cmds, k \in plainCls}
   \cup {a \in {[op |-> "operand", name |-> n, cls |-> k] : n \in fs \cup {"-"}, k \in classes} : ClsFits(a.name, a.cls)}
+\* every way of touching a file whose directory does not exist
+LostMenu(classes) ==
+       {[op |-> "print", dest |-> "file", name |-> n, mode |-> m, form |-> f, cls |-> k] :
+            n \in LostFiles, m \in {"trunc", "append"}, f \in {"print", "printf"}, k \in classes}
+  \cup {[op |-> o, name |-> n, cls |-> k] : o \in {"getline_file", "operand"}, n \in LostFiles, k \in classes \ {"jailed"}}
 \* the C12 additions: command lines without a command / starting with blanks in all three forms, operands that are
 \* a directory, skipped by design, an assignment
 SandboxExtra(classes) ==
@@ -469,6 +514,7 @@ SandboxExtra(classes) ==
   \cup {[op |-> "getline_cmd", name |-> c, cls |-> k] : c \in LeadCmds \cup BlankCmds, k \in plainCls}
   \cup {[op |-> "close", name |-> c, cls |-> k] : c \in LeadCmds, k \in plainCls}
   \cup {[op |-> "operand", name |-> n, cls |-> k] : n \in Dirs \cup SkipOperands, k \in plainCls}
+  \cup LostMenu(plainCls \cup {"rel", "jailed"})
 \* the C13 addition of payload shapes: print / printf of a string with newlines in it to every kind of destination
 ShapedPrints(fs, shapes) ==
   LET Sh(a, sh) == [op |-> "print", dest |-> a.dest, name |-> a.name, mode |-> a.mode, form |-> a.form, cls |-> a.cls, shape |-> sh]
@@ -481,7 +527,7 @@ ExtraMenu(classes) ==
   \cup {[op |-> "close", name |-> c, cls |-> k] : c \in NoReadCmds, k \in classes}
   \cup {[op |-> "fflush", name |-> c, cls |-> "lit"] : c \in NoReadCmds}
   \cup {[op |-> "system", name |-> c, cls |-> k] : c \in FileCmds, k \in classes}
-  \cup {[op |-> "print", dest |-> "stdout", name |-> "", mode |-> "none", form |-> "print2", cls |-> "lit"]}
+  \cup {[op |-> "print", dest |-> "stdout", name |-> "", mode |-> "none", form |-> f, cls |-> "lit"] : f \in {"print2", "implied"}}
 Endings == {[op |-> "finish"], [op |-> "exit"], [op |-> "rterror"]}
 IsIO(act) == act.op \in {"print", "system", "getline_file", "getline_cmd", "operand"}
 
@@ -537,6 +583,8 @@ Prediction(st) ==
     opens       |-> st.opens,
     starts      |-> [k \in 1..Len(st.procs) |-> st.procs[k].cmd],
     files       |-> [n \in Files |-> st.fsys[n]],
+    \* the file-system entries the run brought into being (under the work directory or anywhere else)
+    created     |-> {n \in Files : st.fsys[n].ex /\ ~st.fsys0[n].ex},
     stdout      |-> [prog |-> st.sdel, kids |-> KidSeq(st)],
     stdoutJudged |-> ~st.taint /\ st.failAt < 0,
     serr        |-> st.serr,
